@@ -5,6 +5,9 @@ from scen import Stmt, Variant, scenario, ninja_op, sources_of
 def _ops(v, js=(1, 2), extra_targets=()):
     ops = []
     for s in sources_of([v]):
+        if s == "dd.in":
+            ops.append({"op": "touch", "path": s, "label": "touch " + s})
+            continue
         ops.append({"op": "edit", "path": s, "label": "edit " + s})
     for st in v.stmts:
         if not st.phony:
@@ -39,6 +42,16 @@ def templates(tier="quick"):
     # several outputs: an explicit pair, and an implicit output next to the explicit one
     shapes.append(("two_outputs", Variant("v0", [Stmt(["o1", "o2"], ex=["s"]), Stmt("use", ex=["o1", "o2"])])))
     shapes.append(("implicit_output", Variant("v0", [Stmt("out", iouts=["out.idx"], ex=["s"]), Stmt("use", ex=["out"], im=["out.idx"])])))
+    # dyndep information produced in the build, a depth-1 pool, the console pool, a validation
+    from family_cycles import dyndep_text
+    ddv = Variant("v0", [Stmt("dd", ex=["dd.in"], copy=True), Stmt("x", ex=["s"], pool="pp"), Stmt("w", ex=["t"], pool="pp"),
+                         Stmt("out", ex=["in"], oo=["dd"], dyndep="dd", extra_reads=["x"], extra_outs=["out.mod"]),
+                         Stmt("top", ex=["out", "w"])], pools={"pp": 1},
+                  extra_files={"dd.in": dyndep_text([("out", ["out.mod"], ["x"], False)])})
+    shapes.append(("dyndep_pool", ddv))
+    shapes.append(("console_validation", Variant("v0", [Stmt("c1", ex=["s"], pool="console"), Stmt("chk", ex=["c1"]),
+                                                        Stmt("use", ex=["c1"], val=["chk"]), Stmt("top", ex=["use"])],
+                                                 defaults=["top"])))
     for name, v in shapes:
         ops, plain, crash = _ops(v)
         # from a fresh tree: kill the very first build; from a built tree: kill an incremental build
